@@ -20,6 +20,7 @@ The model is tied to the real `WriteTaskState` + real `UplinkReporter`/`UplinkRe
 -/
 import SwimVerif.Proofs.LinksWTCount
 import SwimVerif.Model.Counters
+import SwimVerif.Proofs.CounterProg
 import SwimVerif.Proofs.ReadFeedCount
 
 set_option linter.unusedVariables false
@@ -251,6 +252,45 @@ theorem C20_snapshot_takes_exactly_the_counter (s : St) (c : Nat) (h : s.loaded 
 
 example : (run {} [.add 2, .load, .add 3, .cas false, .load, .cas false]).taken = 5 := by decide
 example : (run {} [.add 2, .load, .add 3, .cas false]).n = 5 := by decide
+
+/-! ## The atomic steps are the source (translator tie)
+
+`Generated/CounterSrc.lean` is regenerated on every run from `runtime/swimos_runtime/src/agent/reporting/mod.rs` by
+`tools/extractors/c20.py` (`saturating_add`, `snapshot_value`; the wiring of `count_events` / `count_commands` /
+`set_uplinks` / `snapshot` to them is checked as exact text). -/
+
+open SwimVerif.CounterProg in
+/-- **`snapshot_value` performs exactly the model's `load` / `cas` steps**: run without interference, with any number
+`k` of spurious `compare_exchange_weak` failures, the translated function returns the counter, leaves it at zero, adds
+it to `taken`, and its atomic accesses are `k` failed `load; cas` rounds followed by one successful round — the event
+alphabet `C20_counter_interleaving_conserved` quantifies over.  (A `load` followed by a plain `store(0)`, the seeded
+change C20-m2, is not in the translator's vocabulary and would not be these steps.) -/
+theorem C20_source_snapshot_value_is_model (s : St) (hl : s.loaded = none) (k : Nat) (tr : List Ev) :
+    (execK (k + 1) Generated.CounterSrc.snapshot_value
+        { s := s, oracle := List.replicate k true ++ [false], trace := tr }).ret = some s.n ∧
+    (execK (k + 1) Generated.CounterSrc.snapshot_value
+        { s := s, oracle := List.replicate k true ++ [false], trace := tr }).trace = tr ++ snapTrace k ∧
+    (execK (k + 1) Generated.CounterSrc.snapshot_value
+        { s := s, oracle := List.replicate k true ++ [false], trace := tr }).s = run s (snapTrace k) ∧
+    (execK (k + 1) Generated.CounterSrc.snapshot_value
+        { s := s, oracle := List.replicate k true ++ [false], trace := tr }).s.n = 0 ∧
+    (execK (k + 1) Generated.CounterSrc.snapshot_value
+        { s := s, oracle := List.replicate k true ++ [false], trace := tr }).s.taken = s.taken + s.n :=
+  snapshot_value_eq s hl k tr
+
+open SwimVerif.CounterProg in
+/-- `saturating_add` (behind `count_events` / `count_commands`) is ONE atomic read-modify-write: the model's `add`
+step.  Saturation at `u64::MAX` is outside the model (counters are naturals). -/
+theorem C20_source_saturating_add_is_model (s : St) (m : Nat) (tr : List Ev) :
+    (execK 0 Generated.CounterSrc.saturating_add { s := s, m := m, trace := tr }).s = step s (.add m) ∧
+    (execK 0 Generated.CounterSrc.saturating_add { s := s, m := m, trace := tr }).trace = tr ++ [.add m] :=
+  saturating_add_eq s m tr
+
+/-! Non-vacuity: a counter holding 7, two spurious failures, then success: returns 7 after `load, cas, load, cas, load, cas`. -/
+example : (SwimVerif.CounterProg.execK 3 Generated.CounterSrc.snapshot_value
+      { s := { n := 7, added := 7 }, oracle := [true, true, false] }).ret = some 7 ∧
+    (SwimVerif.CounterProg.execK 3 Generated.CounterSrc.snapshot_value
+      { s := { n := 7, added := 7 }, oracle := [true, true, false] }).trace.length = 6 := by decide
 
 end SwimVerif.Ctr
 
